@@ -108,6 +108,7 @@ def run_case(cid: str, eq, ctrl, params, start, steps: int, limit: float, guard_
         signal.alarm(0)
         signal.signal(signal.SIGALRM, old)
     rec["cycles"] = [{"c": int(c), "limit": f64(lim)} for c, lim in ode._VERIF_EVENTS]
+    rec["_res"] = res
     if res is not None:
         out = np.empty(1)
         for row in res:
@@ -118,6 +119,25 @@ def run_case(cid: str, eq, ctrl, params, start, steps: int, limit: float, guard_
             rec["ctrl"].append([f64(out[0])])
         rec["shape"] = list(res.shape)
     return rec
+
+
+def jreal_case(cid: str, res: np.ndarray, n: int, use: int, gamma: float):
+    """The figure of merit of a real simulation output, with every double handed to TLC as an exact scaled natural."""
+    from moptipyapps.dynamic_control.ode import j_from_ode
+    K = 90
+    one = 1 << K
+
+    def sc(v: float) -> list:
+        return core.big(int(round(Fraction(abs(float(v))) * one)))
+    j = float(j_from_ode(res, n, use, gamma))
+    if not (0.0 <= j < 1e30):
+        return None
+    m = len(res)
+    u = n if use <= 0 else use
+    return {"id": cid, "kind": "jreal", "one": core.big(one), "g": sc(gamma), "T": sc(res[-1, -1]), "j": sc(j),
+            "w": [sc(Fraction(float(res[i + 1, -1])) - Fraction(float(res[i, -1]))) for i in range(m - 1)],
+            "st": [[sc(v) for v in res[i, 0:u]] for i in range(m - 1)],
+            "ct": [[sc(v) for v in res[i, n:-1]] for i in range(m - 1)]}
 
 
 def merit_case(cid: str, rng: random.Random) -> dict:
@@ -209,6 +229,18 @@ def run(prop: str, tier: str, seed: int) -> int:
             cases.append(c)
             rep.family("bundled-systems", 1, 1)
             rep.nontrivial += 1
+    # the figure of merit of real simulation outputs (short complete runs), recomputed exactly by TLC
+    n_j = 0
+    for c in list(cases):
+        res_ = c.pop("_res", None)
+        if res_ is not None and 1 < len(res_) <= 50 and n_j < {"quick": 25, "thorough": 200}[tier] \
+                and float(np.max(np.abs(res_))) < 1e6:
+            jc = jreal_case("j-" + c["id"], res_, c["n"], rng.choice([-1, 1, c["n"]]), rng.choice([0.1, 0.5, 0.01]))
+            if jc is not None:
+                cases.append(jc)
+                n_j += 1
+    rep.family("figure-of-merit-of-real-simulations", n_j, n_j)
+    rep.nontrivial += n_j
     n_m = {"quick": 300, "thorough": 3000}[tier]
     for k in range(n_m):
         cases.append(merit_case(f"merit-{k}", rng))
